@@ -1,9 +1,11 @@
 import AiocoapModel.Basic.Bytes
 import AiocoapModel.Blockwise.Server
+import AiocoapModel.Blockwise.Overlap
 /-! Line protocol for the block-wise server model (C06).
 
 `C06 R <T> <step>*`  request sequence against up to 4 resources (own state each, one clock)
-   step = `res,dt,asm,rkey,mps,mszx,code,b1,b2,opts,payload,hcode,hopts,hpayload,obs`
+   step = `res,dt,asm,rkey,mps,mszx,code,b1,b2,opts,payload,hcode,hopts,hpayload,obs,opath,hold`
+        | `F,res,dt,idx`
      res     resource index 0..3          dt   ticks since the previous step
      asm     `needs_blockwise_assembly` 0/1
      obs     0: a plain `Resource`; 1: an `ObservableResource` (its `_render_to_pipe`)
@@ -13,7 +15,18 @@ import AiocoapModel.Blockwise.Server
      payload hex, `-` (empty) or `r<len>.<a>.<b>` (byte i = (a + b·i) mod 256)
      h*      what the handler answers if it is invoked at this step; hcode `!<code>` = the
              handler raises an exception that is rendered with that code (hopts/hpayload unused)
+     opath   `message._original_request_path` of the request as the resource gets it: `-` if it has
+             none, else `p` + the path components in hex joined by `.` (`-` = empty component, `p`
+             alone = the empty path)
+     hold    0: the handler, if it is invoked, ends at once; 1: it suspends and ends at the `F` step
+             that names this step
+     `F,res,dt,idx`: the handler invoked for step number `idx` (counted from 0) on resource `res`
+             returns / raises what that step's `h*` fields say
+   The steps are run on `carrive` / `cfinish` (`Blockwise/Overlap.lean`); a step with hold 0 is an
+   arrival immediately followed by its completion (= `step`, `C06_atomic_is_step`).
    → per step `code|b1|b2|opts|payload|seen|entry`; block options as `num/m/szx`;
+     a held request whose handler was invoked: `~|-|-|_|-|seen|entry`; an `F` step: the response with
+     seen and entry `-`, or `n` if that step has no pending handler;
      seen = `-` or `H~code~b1~b2~opts~payload` (the request the handler was invoked with);
      entry = `-` (plain resource), `p` / `o`: on an observable resource the request takes the way of
      `Resource._render_to_pipe` / enters the observation branch (`add_observation` is called); the
@@ -22,7 +35,7 @@ import AiocoapModel.Blockwise.Server
 `C06 T <T> <op>*`    TimeoutDict; ops `g:<dt>:<k>` `s:<dt>:<k>:<v>` `d:<dt>:<k>` `m:<dt>:<k>:<v>` `w:<dt>`
    → per op the value / `K` (KeyError) / `ok`, then `|k=v,…` (sorted by key) and `|t` / `|n`
      (timer pending or not)
-`C06 K <rkey,code,opts> <rkey,code,opts>`   → `1` iff the two block keys are equal
+`C06 K <rkey,code,opts,opath> <rkey,code,opts,opath>`   → `1` iff the two block keys are equal
 -/
 namespace Aiocoap.BwServer
 
@@ -65,15 +78,17 @@ def showSeen : Option Msg → String
   | none => "-"
   | some m => s!"H~{m.code}~{showBlk m.block1}~{showBlk m.block2}~{showOpts m.opts}~{bytesToHex m.payload}"
 
-def showOut (o : StepOut) : String :=
-  s!"{o.resp.code}|{showBlk o.resp.block1}|{showBlk o.resp.block2}|{showOpts o.resp.opts}|" ++
-  s!"{bytesToHex o.resp.payload}|{showSeen o.seen}"
-
 structure DStep where
   res : Nat
   dt : Nat
   obs : Bool         -- the resource is an `ObservableResource`
+  hold : Bool        -- the handler suspends
   inp : Nat → In     -- given the absolute time
+
+/-- a token of the line: a request, or the completion of the handler of an earlier request -/
+inductive DTok
+  | req (d : DStep)
+  | fin (res dt idx : Nat)
 
 /-- the way the request takes on its resource -/
 def showEntry (d : DStep) : String :=
@@ -96,11 +111,26 @@ def outcomeOpts : Outcome → List Opt
   | .ok r => r.opts
   | .error _ => []
 
-def parseStep (s : String) : Option DStep :=
+/-- `-` (no `_original_request_path`), or `p<hex>.<hex>…` -/
+def parseOPath (s : String) : Option (Option (List Bytes)) :=
+  if s = "-" then some none else
+  match s.toList with
+  | 'p' :: rest =>
+    if rest.isEmpty then some (some [])
+    else ((String.ofList rest).splitOn ".").mapM hexToBytes |>.map some
+  | _ => none
+
+def parseStep (s : String) : Option DTok :=
   match s.splitOn "," with
-  | [res, dt, asm, rkey, mps, mszx, code, b1, b2, opts, payload, hcode, hopts, hpayload, obs] => do
+  | ["F", res, dt, idx] => do
+    let res ← res.toNat?
+    let dt ← dt.toNat?
+    let idx ← idx.toNat?
+    pure (.fin res dt idx)
+  | [res, dt, asm, rkey, mps, mszx, code, b1, b2, opts, payload, hcode, hopts, hpayload, obs, opath, hold] => do
     let res ← res.toNat?
     let obs ← parseBool obs
+    let hold ← parseBool hold
     let dt ← dt.toNat?
     let asm ← parseBool asm
     let rkey ← rkey.toNat?
@@ -114,34 +144,76 @@ def parseStep (s : String) : Option DStep :=
     let hcode ← parseHCode hcode
     let hopts ← parseOpts hopts
     let hpayload ← parsePayload hpayload
+    let opath ← parseOPath opath
     let req : Msg := { remote := { key := rkey, maxPayload := mps, maxSzx := mszx }, code := code,
-                       opts := opts, block1 := b1, block2 := b2, payload := payload }
+                       opts := opts, block1 := b1, block2 := b2, payload := payload, origPath := opath }
     let resp : Outcome :=
       if hcode.1 then .error hcode.2
       else .ok { code := hcode.2, opts := hopts, block1 := none, block2 := none, payload := hpayload }
-    pure { res := res, dt := dt, obs := obs,
-           inp := fun now => { now := now, assemble := asm, req := req, render := fun _ => resp } }
+    pure (.req { res := res, dt := dt, obs := obs, hold := hold,
+                 inp := fun now => { now := now, assemble := asm, req := req, render := fun _ => resp } })
   | _ => none
 
 /-- inputs the model does not claim: resource index ≥ 4, exponent of the remote > 7, a request
 code that is not a request, a handler answering with a request code or with a block option
 number among its plain options, plain options 23/27 in the request -/
-def stepInModel (d : DStep) : Bool :=
-  let i := d.inp 0
-  d.res < 4 && i.req.remote.maxSzx ≤ 7 && isRequestCode i.req.code &&
-  !isRequestCode (i.render i.req).code &&
-  i.req.opts.all (fun o => o.1 != 23 && o.1 != 27) &&
-  (outcomeOpts (i.render i.req)).all (fun o => o.1 != 23 && o.1 != 27)
+def stepInModel : DTok → Bool
+  | .fin res _ _ => res < 4
+  | .req d =>
+    let i := d.inp 0
+    d.res < 4 && i.req.remote.maxSzx ≤ 7 && isRequestCode i.req.code &&
+    !isRequestCode (i.render i.req).code &&
+    i.req.opts.all (fun o => o.1 != 23 && o.1 != 27) &&
+    (outcomeOpts (i.render i.req)).all (fun o => o.1 != 23 && o.1 != 27)
 
-def runSteps (T : Nat) : List RState → Nat → List DStep → List String
-  | _, _, [] => []
-  | sts, now, d :: rest =>
+def showResp (r : Resp) : String :=
+  s!"{r.code}|{showBlk r.block1}|{showBlk r.block2}|{showOpts r.opts}|{bytesToHex r.payload}"
+
+/-- a handler that is under way: the step it belongs to, its resource, token and what it will
+answer -/
+structure Held where
+  idx : Nat
+  res : Nat
+  ticket : Nat
+  out : Outcome
+
+def runSteps (T : Nat) : List CState → List Held → Nat → Nat → List DTok → List String
+  | _, _, _, _, [] => []
+  | sts, held, now, idx, .req d :: rest =>
     let now' := now + d.dt
     match sts[d.res]? with
     | none => ["bad-res"]
     | some st =>
-      let r := step T st (d.inp now')
-      (showOut r.2 ++ "|" ++ showEntry d) :: runSteps T (sts.set d.res r.1) now' rest
+      let i := d.inp now'
+      let r := carrive T st { now := i.now, assemble := i.assemble, req := i.req }
+      match r.2.ticket, r.2.seen with
+      | some id, some m =>
+        if d.hold then
+          (s!"~|-|-|_|-|{showSeen (some m)}|{showEntry d}") ::
+            runSteps T (sts.set d.res r.1) ({ idx := idx, res := d.res, ticket := id, out := i.render m } :: held)
+              now' (idx + 1) rest
+        else
+          let r' := cfinish T r.1 now' id (i.render m)
+          match r'.2.resp with
+          | some resp =>
+            (s!"{showResp resp}|{showSeen (some m)}|{showEntry d}") ::
+              runSteps T (sts.set d.res r'.1) held now' (idx + 1) rest
+          | none => ["bad-state"]
+      | _, _ =>
+        match r.2.resp with
+        | some resp =>
+          (s!"{showResp resp}|-|{showEntry d}") :: runSteps T (sts.set d.res r.1) held now' (idx + 1) rest
+        | none => ["bad-state"]
+  | sts, held, now, idx, .fin res dt target :: rest =>
+    let now' := now + dt
+    match held.find? (fun h => h.idx == target && h.res == res), sts[res]? with
+    | some h, some st =>
+      let r := cfinish T st now' h.ticket h.out
+      let held' := held.filter (fun x => x.idx != target)
+      match r.2.resp with
+      | some resp => (s!"{showResp resp}|-|-") :: runSteps T (sts.set res r.1) held' now' (idx + 1) rest
+      | none => "n" :: runSteps T (sts.set res r.1) held' now' (idx + 1) rest
+    | _, _ => "n" :: runSteps T sts held now' (idx + 1) rest
 
 -- TimeoutDict -------------------------------------------------------------------------------
 
@@ -199,12 +271,13 @@ def tdOps (T : Nat) : TD Nat Nat → Nat → List String → Option (TD Nat Nat 
 
 def parseKeyMsg (s : String) : Option Msg :=
   match s.splitOn "," with
-  | [rkey, code, opts] => do
+  | [rkey, code, opts, opath] => do
     let rkey ← rkey.toNat?
     let code ← code.toNat?
     let opts ← parseOpts opts
+    let opath ← parseOPath opath
     pure { remote := { key := rkey, maxPayload := 0, maxSzx := 0 }, code := code, opts := opts,
-           block1 := none, block2 := none, payload := [] }
+           block1 := none, block2 := none, payload := [], origPath := opath }
   | _ => none
 
 end Aiocoap.BwServer
@@ -218,7 +291,7 @@ def handleC06 (args : List String) : String :=
     match t.toNat?, steps.mapM parseStep with
     | some T, some ds =>
       if !ds.all stepInModel then "out-of-model" else
-      " ".intercalate (runSteps T (List.replicate 4 RState.init) 0 ds)
+      " ".intercalate (runSteps T (List.replicate 4 CState.init) [] 0 0 ds)
     | _, _ => "bad-op"
   | "T" :: t :: ops =>
     match t.toNat? with
